@@ -261,6 +261,10 @@ def run(ctx):
 
     ctx.rule("R-C20-10", "get_subgraph unwraps the constructor's result: its edge argument holds every stored edge at most once (taken from get_all_edges alone), so DuplicateEdge cannot arise")
     subgraph_edge_source(ctx, prog, flows, "R-C20-10", "a repeated edge makes new_from_nodes_and_edges answer DuplicateEdge, and get_subgraph (and modularity / Louvain above it) unwrap that")
+    from effects import Effects as _Eff
+    from graphrules import node_append_behind_fresh_absence_test
+
+    node_append_behind_fresh_absence_test(ctx, prog, flows, _Eff(prog, flows), "R-C20-11", "the same name is stored at two positions; the algorithms that renumber nodes by name (Louvain) or look a position up by name then unwrap a lookup that fails for the phantom position")
     n9 = check_unwrapped_callee_kinds(ctx, prog, flows, "R-C20-9", None, "a call that used to return a value now panics on the input that takes the new error path")
     ctx.floor("R-C20-9", "unwrapped_crate_calls", n9, 12)
     # R-C20-5: recursion inventory
